@@ -254,6 +254,7 @@ def install_dorfler(eng):
     eng.externals["reversed"] = Ext("reversed", reversed_ext)
     eng.spec_funcs["bulk_prefix"] = s_bulk_prefix
     eng.spec_funcs["PSUM"] = lambda e, k: PSUM(to_z3(k))
+    eng.spec_funcs["TOTAL"] = lambda e: PSUM(to_z3(e.ghost["N"]))
     eng.spec_funcs["DESCi"] = lambda e, k: DESC(to_z3(k))
 
 
@@ -262,14 +263,16 @@ MARK_INV = [
     ("marked-is-prefix-of-the-descending-order",
      "And(len(marked) == km, forall1(lambda p: implies(And(0 <= p, p < km), item(marked, p) is elems[DESCi(p)])))"),
     ("no-shorter-non-empty-prefix-reaches-the-bulk",
-     "forall1(lambda j: implies(And(0 < j, j <= km), PSUM(j) < eta_tot_sqr * theta**2))"),
+     "forall1(lambda j: implies(And(0 < j, j <= km), PSUM(j) < TOTAL() * theta**2))"),
+    # the total of the PROPERTY is the sum of the indicators handed in (a spec term), not whatever the program variable holds
+    ("the threshold variable is the sum of the given indicators", "eta_tot_sqr == TOTAL()"),
 ]
 
 contracts.append(Contract(
     MESH + ":Mesh.dorfler_refine_isotropic", props=["C06"], setup=sc_dorfler_iso, body_select=select_marking_phase,
     precondition_asserts=1,
     ensures=[("marked = shortest non-empty prefix of the descending ordering whose sum reaches theta^2 * total",
-              "bulk_prefix(marked, elems, cumsum, theta, eta_tot_sqr)")],
+              "bulk_prefix(marked, elems, cumsum, theta, TOTAL())")],
     post_in_env=True,
     loops={0: LoopContract(index="km", label="marking", invariant=MARK_INV,
                            modifies={"marked": lambda e, b: slist_elems(e, "marked"), "cumsum": "Real", "i": "Int"})}))
@@ -411,7 +414,7 @@ def install_aniso(eng):
     np["sum"] = Ext("np.sum", aniso_sum_ext)
     eng.spec_funcs["descending"] = s_descending
     eng.spec_funcs.update({"aniso_prefix": s_aniso_prefix, "axis_lists": s_axis_lists, "cnt_axioms": s_cnt_axioms,
-                           "aniso_axioms": s_aniso_axioms, "tags_are_axes": s_tags_are_axes, "PSUM2": lambda e, k: PSUM2(to_z3(k)),
+                           "aniso_axioms": s_aniso_axioms, "tags_are_axes": s_tags_are_axes, "PSUM2": lambda e, k: PSUM2(to_z3(k)), "TOTAL2": lambda e: PSUM2(2 * to_z3(e.ghost["N"])),
                            "item": s_item})
 
 
@@ -422,7 +425,8 @@ def select_aniso_marking(stmts):
 ANISO_INV = [
     ("cumsum-is-prefix-sum", "cumsum == PSUM2(ka)"),
     ("each marked element sits in the list of its axis tag, in order", "axis_lists(marked, errs, ka)"),
-    ("no-shorter-non-empty-prefix-reaches-the-bulk", "forall1(lambda j: implies(And(0 < j, j <= ka), PSUM2(j) < eta_tot_sqr * theta**2))"),
+    ("no-shorter-non-empty-prefix-reaches-the-bulk", "forall1(lambda j: implies(And(0 < j, j <= ka), PSUM2(j) < TOTAL2() * theta**2))"),
+    ("the threshold variable is the sum of the given indicators", "eta_tot_sqr == TOTAL2()"),
 ]
 
 aniso_contract = Contract(
@@ -431,7 +435,7 @@ aniso_contract = Contract(
     ensures=[("the sorted list pairs eta_sqr[i, a] with elems[i] and axis tag a", "tags_are_axes(errs)"),
              ("the contributions are processed in descending order of their values", "descending(errs)"),
              ("marked contributions = shortest non-empty prefix of the descending ordering reaching theta^2 * total",
-              "aniso_prefix(marked, errs, cumsum, theta, eta_tot_sqr)")],
+              "aniso_prefix(marked, errs, cumsum, theta, TOTAL2())")],
     loops={0: LoopContract(index="ka", label="marking", invariant=ANISO_INV,
                            assumes=[("definitions of the prefix sums / tag counts along the sorted list and their induction lemmas",
                                      "And(aniso_axioms(errs), cnt_axioms(errs))")],
